@@ -12,14 +12,14 @@ import (
 func init() {
 	register(&Property{
 		ID:    "C01",
-		Rules: []string{"C01-R1", "C01-R2", "C01-R3", "C01-R4", "C01-R5", "C01-R6", "C11-R2", "C11-R3", "C11-R5", "C04-R1", "C04-R2", "C01-R7", "C11-R8"},
+		Rules: []string{"C01-R1", "C01-R2", "C01-R3", "C01-R4", "C01-R5", "C01-R6", "C11-R2", "C11-R3", "C11-R5", "C04-R1", "C04-R2", "C01-R7", "C11-R8", "C11-R9"},
 		Explain: "Decides the construction discipline of a resolved ingredient list for every recursive resolver of package resolver: " +
 			"C01-R1 the list stored into a recipe is the value last sorted; C01-R2 the sort order is element name ascending; " +
 			"C01-R3 a recipe's elements are merged only after that recipe was expanded in the same iteration; " +
 			"C01-R4 Elements.SumMerge accumulates by name (existing name: one += of value x multiplier on the slot Index returned; new name: one Add; nothing else written, in particular no aliasing store of the argument list); " +
 			"C01-R5 the list under construction grows only through that merge, with the ingredient's own quantity as coefficient and {name, quantity} x 1 for undefined names, and no amount in it is rewritten in place afterwards (rounded, clamped, scaled); " +
 			"C01-R6 Elements.Add appends exactly {name,val} and Elements.Index reports found only for an equal name; " +
-			"C11-R3/R5 (shared with C11) the depth limit in force is the one configured: stored from --maxdepth only when set or nothing configured, handed to the walk untransformed; C04-R1/R2 (shared with C04) every heading of the book is delivered exactly once, including an empty recipe at the end of the file. Also: C01-R3 requires the merged list of an ingredient's recipe to be read after that recipe was expanded. C01-R7 every record the book-loading callback is handed without an error is stored in the book; C11-R8 a command's configuration takes its resolver section from the loaded options.",
+			"C11-R3/R5 (shared with C11) the depth limit in force is the one configured: stored from --maxdepth only when set or nothing configured, handed to the walk untransformed; C04-R1/R2 (shared with C04) every heading of the book is delivered exactly once, including an empty recipe at the end of the file. Every function of package resolver that stores a recipe's list is a directly recursive walk or a walk with an explicit stack whose guard is len(stack) >= limit (mutual recursion is undecided); the pass-through merge is not reached where the lookup found the name. Also: C01-R3 requires the merged list of an ingredient's recipe to be read after that recipe was expanded. C01-R7 every record the book-loading callback is handed without an error is stored in the book; C11-R8 a command's configuration takes its resolver section from the loaded options.",
 		NotDecided: "that the numbers equal the sum over paths of the products (floating point), idempotence of resolving twice, DAG shape, order-independence of the values",
 		Run: func(c *core.Ctx) {
 			ruleConfigLiterals(c, "C11-R8", func(t types.Type) bool { return strings.HasSuffix(t.String(), "resolver.Config") })
@@ -33,6 +33,7 @@ func init() {
 				c.Undecide("C01-R1", "resolver", "universe", "-", "package resolver has no recursive resolver: the universe of the rule is empty although Resolve must expand nested recipes somehow", nil)
 			}
 			ruleResolverShapes(c, "C01-R1")
+			ruleEveryRecipeWalked(c, "C11-R9")
 			ruleLessByName(c, "C01-R2")
 			if fn := c.P.LookupMethod(core.LibPath, "Elements", "SumMerge"); requireAnchor(c, "C01-R4", "Elements.SumMerge", fn != nil) {
 				ruleMergeByName(c, "C01-R4", fn, true)
@@ -48,13 +49,13 @@ func init() {
 	})
 	register(&Property{
 		ID:    "C11",
-		Rules: []string{"C11-R1", "C11-R2", "C11-R3", "C11-R4", "C11-R5", "C11-R6", "C11-R7", "C01-R4", "C11-R8", "C16-R3"},
+		Rules: []string{"C11-R1", "C11-R2", "C11-R3", "C11-R4", "C11-R5", "C11-R6", "C11-R7", "C01-R4", "C11-R8", "C11-R9", "C16-R3"},
 		Explain: "Decides termination and the guard of the depth limit for every recursive resolver: C11-R1 the depth parameter grows by exactly 1 per reference; " +
 			"C11-R2 the guard table over ord(level,max) x exists: level>=max fails first whatever exists, an undefined name below the limit is accepted untouched, a defined recipe below the limit returns nil only after storing its flattened list; " +
 			"C11-R4 the loops that drive resolution do not depend on map order; C11-R5 entry points start every walk at depth 0 and hand the configured limit to the walk untransformed (a field or parameter read, no clamp, offset or substitute); " +
 			"C11-R3 the limit N the user gives (--maxdepth, HR_MAXDEPTH, configuration file) is the one stored for the resolver: it is overwritten from the flag only when the flag is set or nothing was configured, and a set flag always wins; C11-R6 if --maxdepth is ever declared on a command as well as on the application it is read through the context lineage, so the global flag and HR_MAXDEPTH still reach the resolver; " +
 			"C11-R7 the maximum-depth error made inside package resolver reaches the result of every function it passes through, up to the command (must-flow: on every path on which a call that can return it fails, the caller returns a non-nil error), so a book that is too deep or cyclic is never reported as success; " +
-			"C01-R4 (shared) merging keeps every ingredient of an expanded recipe whatever its amount, so how deep a later walk goes does not depend on values being zero. C11-R8 a command's configuration takes its resolver section from the loaded options (or an adjusted copy), never from a fresh default; C16-R3 (shared) the environment variable documented for the limit is the one the flag declares. C11-R2 also requires every iteration over the ingredients to descend to that ingredient.",
+			"C01-R4 (shared) merging keeps every ingredient of an expanded recipe whatever its amount, so how deep a later walk goes does not depend on values being zero. C11-R8 a command's configuration takes its resolver section from the loaded options (or an adjusted copy), never from a fresh default; C16-R3 (shared) the environment variable documented for the limit is the one the flag declares. C11-R2 also requires every iteration over the ingredients to descend to that ingredient, a cycle mark set under the walk's name to be cleared on every successful way out, and a walk with an explicit stack to guard with len(stack) >= limit.",
 		NotDecided: "that the limit trips exactly when some chain has N or more references independently of the order of visits (recipes are flattened in place, so a later walk is shallower: defect D10 in DESIGN.md, out of reach for a necessary-condition rule); provenance of the default bound (C16-R5)",
 		Run: func(c *core.Ctx) {
 			ruleSettingTables(c, "C16-R3") // the limit documented for the environment is the one declared
@@ -68,6 +69,7 @@ func init() {
 				c.Undecide("C11-R2", "resolver", "universe", "-", "package resolver has no recursive resolver", nil)
 			}
 			ruleResolverShapes(c, "C11-R2")
+			ruleEveryRecipeWalked(c, "C11-R9")
 			RuleMapRanges(c, "C11-R4", func(s mapRangeSite) bool { return s.pkg.PkgPath == resolverPkg })
 			ruleResolverEntries(c, "C11-R5", true, true)
 			ruleGuardedOverridesOnly(c, "C11-R3", "MaxDepth")
